@@ -299,7 +299,11 @@ pub fn matrix_from_digits(digits: &[u8], wild: usize) -> Vec<Vec<f32>> {
                 // finite wildcard column (user-built ScoringMatrix::new): lower than every row entry
                 1 => -3.0,
                 // finite wildcard ABOVE the row minimum (a "neutral" wildcard: mean of the row)
-                _ => (r[0] + r[1] + r[2] + r[3]) / 4.0,
+                2 => (r[0] + r[1] + r[2] + r[3]) / 4.0,
+                // wildcard ABOVE every entry of its row (e.g. pseudocounts on all columns with a rare-N background):
+                // max_score() and the 8-bit scale ignore the wildcard column, so windows holding several N exceed the
+                // 8-bit headroom and rely on saturation
+                _ => r.iter().cloned().fold(f32::MIN, f32::max) + 0.25 * (r.iter().cloned().fold(f32::MIN, f32::max) - r.iter().cloned().fold(f32::MAX, f32::min)) + 0.125,
             });
             v
         })
@@ -445,7 +449,7 @@ fn sweep(mode: Mode, ctx: &mut Ctx, rep: &mut Report) {
     if ctx.wants("small") {
         sink.rep.space(
             "small",
-            "ALL 3906 strings over {A,C,T,G,N} of length 0..=5 (covers empty, L<M, L=M) x matrices: all 8^M for M<=2 from an 8-row tie/near-tie menu (incl. a designed pair whose 8-bit order inverts the real order) + every 16th of M=3 (thorough: all) x wildcard column {-inf, finite below every entry, finite row mean} \
+            "ALL 3906 strings over {A,C,T,G,N} of length 0..=5 (covers empty, L<M, L=M) x matrices: all 8^M for M<=2 from an 8-row tie/near-tie menu (incl. a designed pair whose 8-bit order inverts the real order) + every 16th of M=3 (thorough: all) x wildcard column {-inf, finite below every entry, finite row mean, finite ABOVE every entry of its row} \
              x thresholds {below min, min-1, every distinct attainable score, midpoints, max, above max} x block sizes {1,256} x dispatcher arms {generic,sse2,avx2}; \
              non-trivial = L>=M",
         );
@@ -455,9 +459,9 @@ fn sweep(mode: Mode, ctx: &mut Ctx, rep: &mut Report) {
                 if m == 3 && ctx.quick() && mi % 16 != 1 {
                     continue;
                 }
-                for wild in 0..3 {
+                for wild in 0..4 {
                     // quick tier, M = 3: the neutral-wildcard kind only for every 64th matrix
-                    if m == 3 && wild == 2 && ctx.quick() && mi % 64 != 1 {
+                    if m == 3 && wild >= 2 && ctx.quick() && mi % 64 != 1 {
                         continue;
                     }
                     let idx = base;
@@ -507,7 +511,7 @@ fn sweep(mode: Mode, ctx: &mut Ctx, rep: &mut Report) {
         sink.rep.space(
             "shapes",
             "every length L in 0..=170 (R<=6 sequence rows, so with block sizes 1..8 every relative position of a block boundary w.r.t. the sequence rows and the M-1 look-ahead rows occurs) plus L = 8192 +- {0,32,64} (+-1) \
-             x 3 contents (de Bruijn cycle, constant, period-5 with wildcard) x matrix menu (M in 1..=4, 14 matrices; thorough 40) x wildcard column {-inf, finite below every entry, finite row mean} x striped sequence {fresh, previously configured for a shorter motif} x thresholds (<= 4 (thorough 8) evenly ranked attainable scores, their midpoints, + extremes) \
+             x 3 contents (de Bruijn cycle, constant, period-5 with wildcard) x matrix menu (M in 1..=4, 14 matrices; thorough 40) x wildcard column {-inf, finite below every entry, finite row mean, finite ABOVE every entry of its row} x striped sequence {fresh, previously configured for a shorter motif} x thresholds (<= 4 (thorough 8) evenly ranked attainable scores, their midpoints, + extremes) \
              x block sizes {1,2,3,4,5,7,8,256} x 3 dispatcher arms",
         );
         let mut mats: Vec<(usize, u64)> = vec![(1, 0), (1, 3), (2, 7), (2, 8), (2, 20), (3, 44), (3, 100), (3, 215), (4, 0), (4, 333), (4, 800), (4, 1295), (2, 28), (3, 86), (2, 55), (3, 6 * 64 + 7 * 8 + 1), (4, 6 * 512 + 7 * 64 + 8 + 5)];
@@ -530,7 +534,7 @@ fn sweep(mode: Mode, ctx: &mut Ctx, rep: &mut Report) {
                     if ctx.quick() && !big && l > 70 && l % 32 > 2 && (mm + l) % 3 != 0 {
                         continue;
                     }
-                    for wild in 0..3 {
+                    for wild in 0..4 {
                         let idx = base;
                         base += 1;
                         if !ctx.mine(idx) {
@@ -573,6 +577,54 @@ fn sweep(mode: Mode, ctx: &mut Ctx, rep: &mut Report) {
             if ctx.out_of_time() {
                 sink.rep.cap(format!("shapes: wall-clock cap at L={}", l));
                 break;
+            }
+        }
+    }
+    // ---- (iii) more than 65536 sequence rows: 16-bit row counters of the 8-bit kernels ----------
+    if ctx.wants("huge") {
+        sink.rep.space(
+            "huge",
+            "sequences with MORE THAN 65536 striped rows (L = 32*65536 + {100, 2100}: the 8-bit kernels keep 16-bit row indices per block) x block sizes {256, 65535, 65536, 65537, 2^20 (one block over all rows)}              x dispatcher arms {generic,sse2,avx2}; motif of width 5, background content with 6 planted sites (first row, rows around 65535/65536, last row, last valid position) ; threshold between background and site scores; same oracle as shapes",
+        );
+        for (li, &extra) in [100usize, 2100].iter().enumerate() {
+            if ctx.quick() && li > 0 {
+                continue;
+            }
+            let l = 32 * 65536 + extra;
+            let rows = (l + 31) / 32;
+            let m = 5usize;
+            // background: alternating A/C (scores low); sites: GGTGT planted
+            let mut seq: Vec<u8> = (0..l).map(|i| if i % 997 == 500 { 4 } else { (i % 2) as u8 }).collect();
+            let site = [3u8, 3, 2, 3, 2];
+            let positions = [0usize, 65535, 65536, rows - 1, rows + 65535, 31 * rows + 3, l - m];
+            for &p in &positions {
+                if p + m <= l {
+                    seq[p..p + m].copy_from_slice(&site);
+                }
+            }
+            // ranks: A=0 C=1 T=2 G=3 N=4
+            let matrix: Vec<Vec<f32>> = (0..m)
+                .map(|j| {
+                    let mut r = vec![-1.0f32, -1.5, -2.0, -2.0, f32::NEG_INFINITY];
+                    r[site[j] as usize] = 2.0 + j as f32 * 0.25;
+                    r
+                })
+                .collect();
+            let proto = Config { seq, matrix, threshold: 8.0, block: 256, arm: Forced::Avx2, origin: String::new(), pre_wrap: None };
+            let or = Oracle::new(&proto);
+            for &block in &[256usize, 65535, 65536, 65537, 1 << 20] {
+                for arm in cfgs::FORCED {
+                    let idx = base;
+                    base += 1;
+                    if !ctx.mine(idx) {
+                        continue;
+                    }
+                    let mut cfg = proto.clone();
+                    cfg.block = block;
+                    cfg.arm = arm;
+                    cfg.origin = format!("huge L={} rows={} block={}", l, rows, block);
+                    sink.config(&cfg, &or);
+                }
             }
         }
     }
